@@ -319,7 +319,7 @@ def storeAt (status : Int) (body : String) (h : Hdrs) : List Remedy → Option (
     | .modResp h2 b s => storeAt s b (merge h h2) rs
     | _ => storeAt status body h rs
 
-/-- The cache after a response leg over a response (status, body, header map `h0`). -/
+/-- The cache after the response leg over a PROVIDER response (status, body, header map `h0`). -/
 def cacheAfterLeg (cache : Option (Int × String × Hdrs)) (status : Int) (body : String) (h0 : Hdrs)
     (rs : List Remedy) : Option (Int × String × Hdrs) :=
   match cache with
@@ -346,13 +346,11 @@ def legacyReq (env : ReqEnv) (rs : List Remedy) : ReqAct := rerunEarly rs (legac
 /-- The action `DispatchOnResponse` encodes for a response with this status. -/
 def legacyResp (status : Int) (rs : List Remedy) : RespAct := foldResp (scriptResp status rs)
 
-/-- Plugin state after a whole `DispatchOnRequest`: the request-leg answers, then — when a remedy
-    answered the request itself — the response leg over that answer (the caching remedy may store it). -/
-def envAfter (env : ReqEnv) (rs : List Remedy) : ReqEnv :=
-  let env1 := envAfterAnswers env rs
-  match legacyFoldReq env rs with
-  | .early s b h => { env1 with cache := cacheAfterLeg env1.cache s b h rs }
-  | _ => env1
+/-- Plugin state after a whole `DispatchOnRequest`: the request-leg answers.  The response leg over
+    an early answer runs on a response marked `GatewayGenerated` (F09g repaired): the caching
+    remedy answers no-op without storing, so an answer the gateway produced itself — a cache hit
+    included — is never (re-)stored. -/
+def envAfter (env : ReqEnv) (rs : List Remedy) : ReqEnv := envAfterAnswers env rs
 
 /-- Plugin state after `DispatchOnResponse` for a provider response. -/
 def envAfterResp (env : ReqEnv) (status : Int) (body : String) (h0 : Hdrs) (rs : List Remedy) : ReqEnv :=
